@@ -32,6 +32,10 @@ class Env:
                 f.write(content)
 
     def run(self, scenario, plan=None, timeout=120):
+        for n in ("docker", "pack"):        # a scripted fault may have removed a stand-in
+            p = os.path.join(self.bin, n)
+            if not os.path.lexists(p):
+                os.symlink(os.path.join(vp.BIN, "vpstandin"), p)
         for p in (self.log,):
             if os.path.exists(p):
                 os.unlink(p)
@@ -41,7 +45,7 @@ class Env:
             json.dump(scenario, f)
         with open(self.plan, "w") as f:
             json.dump(plan or {}, f)
-        env = {"PATH": self.bin + ":/usr/bin:/bin", "TMPDIR": self.tmp, "CARGO_MANIFEST_DIR": self.crate, "VP_CMDLOG": self.log, "VP_CMDPLAN": self.plan, "RUST_BACKTRACE": "0"}
+        env = {"PATH": self.bin + ":/usr/bin:/bin", "TMPDIR": self.tmp, "CARGO_MANIFEST_DIR": self.crate, "VP_CMDLOG": self.log, "VP_CMDPLAN": self.plan, "VP_STANDIN_BIN": self.bin, "RUST_BACKTRACE": "0"}
         try:
             p = subprocess.run([os.path.join(vp.BIN, "vptest"), self.scenario], env=env, stdout=subprocess.PIPE, stderr=subprocess.PIPE, timeout=timeout, cwd=self.root)
             rc, err = p.returncode, p.stderr.decode(errors="replace")
